@@ -1,10 +1,12 @@
 #!/bin/sh
 # tools/seeded.sh <dir with patch.diff> <prop> : apply a seeded change to /repo, run the quick check, undo.
-d="$1"; prop="$2"
+# FAST=1 skips the Lean phase (only for changes that cannot touch an extracted fact).
+d="$(cd "$1" && pwd)"; prop="$2"
+extra=""; [ -n "$FAST" ] && extra="--skip-lean"
 cd /repo || exit 2
 git apply --check "$d/patch.diff" || { echo "patch does not apply"; exit 2; }
 git apply "$d/patch.diff"
-(cd /verif && ./check "$prop" --tier quick > "out/seeded-$prop-$(basename $d).log" 2>&1; echo "exit=$?" >> "out/seeded-$prop-$(basename $d).log")
+(cd /verif && ./check "$prop" --tier quick $extra > "out/seeded-$prop-$(basename $d).log" 2>&1; echo "exit=$?" >> "out/seeded-$prop-$(basename $d).log")
 git -C /repo checkout -- .
 git -C /repo status --short | grep -v '^??' 
 tail -4 "/verif/out/seeded-$prop-$(basename $d).log"
